@@ -851,7 +851,7 @@ impl Gen {
                 (T::P, 0) => "p - p".to_string(),
                 (_, 0) => format!("konst({}, -b)", e),
                 (_, 1) => format!("konst({}, p / p)", e),
-                (_, _) => format!("konst({}, s > s)", e),
+                (_, _) => format!("konst({}, b >= b)", e), // ordering on strings is legitimate (valid Go); on bool it is not
             },
             _ => "zzz".to_string(),
         }
